@@ -55,6 +55,19 @@ fn arg<'a>(args: &'a [String], name: &str) -> Option<&'a str> {
     args.iter().position(|a| a == name).and_then(|i| args.get(i + 1)).map(|s| s.as_str())
 }
 
+/// indices of the crafted inputs per group (inputs carrying a "group" field)
+fn load_groups(path: &str) -> Vec<Vec<usize>> {
+    let txt = std::fs::read_to_string(path).expect("inputs file");
+    let v: Value = serde_json::from_str(&txt).expect("inputs json");
+    let mut groups: std::collections::BTreeMap<u64, Vec<usize>> = std::collections::BTreeMap::new();
+    for (i, x) in v.as_array().unwrap().iter().enumerate() {
+        if let Some(g) = x["group"].as_u64() {
+            groups.entry(g).or_default().push(i);
+        }
+    }
+    groups.into_values().collect()
+}
+
 fn load_inputs(path: &str) -> Vec<(String, Vec<String>)> {
     let txt = std::fs::read_to_string(path).expect("inputs file");
     let v: Value = serde_json::from_str(&txt).expect("inputs json");
@@ -96,10 +109,15 @@ struct Op {
     kind: String,
 }
 
-fn gen_history(rng: &mut Rng, inputs: &[(String, Vec<String>)]) -> Vec<Vec<Op>> {
+fn gen_history(rng: &mut Rng, inputs: &[(String, Vec<String>)], groups: &[Vec<usize>]) -> Vec<Vec<Op>> {
     let clients = 1 + rng.below(4);
-    // a small pool, so that the same invocation is expanded repeatedly and by several clients
-    let pool: Vec<usize> = (0..(2 + rng.below(4))).map(|_| rng.below(inputs.len())).collect();
+    // a small pool, so that the same invocation is expanded repeatedly and by several clients; every
+    // fourth history draws its pool from one group of crafted, textually overlapping inputs
+    let pool: Vec<usize> = if !groups.is_empty() && rng.chance(1, 4) {
+        rng.pick(groups).clone()
+    } else {
+        (0..(2 + rng.below(4))).map(|_| rng.below(inputs.len())).collect()
+    };
     (0..clients)
         .map(|_| {
             let n = 2 + rng.below(7);
@@ -181,14 +199,25 @@ fn sim(args: &[String]) {
         refs_v.as_array().unwrap().iter().map(|per| per.as_array().unwrap().iter().map(|x| (x["kind"].as_str().unwrap().to_string(), x["hash"].as_str().unwrap().to_string())).collect()).collect(),
     );
     if let Some(rf) = arg(args, "--replay") {
+        // a replay file lists ALL histories the failing process had executed (hidden state may have been left behind by an
+        // earlier history), with their decision lists; they are re-run in order in this fresh process
         let v: Value = serde_json::from_str(&std::fs::read_to_string(rf).unwrap()).unwrap();
-        let hist = hist_from_json(&v["history"]);
-        let dec: Vec<u32> = v["schedule"].as_array().unwrap().iter().map(|x| x.as_u64().unwrap() as u32).collect();
-        let r = run_history(&hist, inputs, refs, Strat::Uniform, 0, Some(dec));
-        let same_log = r.log_hash.to_string() == v["log_hash"].as_str().unwrap_or("");
-        println!("{}", json!({"type": "replay", "status": if !r.mismatches.is_empty() && same_log { "reproduced" } else if !r.mismatches.is_empty() { "reproduced_with_different_log" } else { "not_reproduced" }, "mismatches": r.mismatches}));
-        std::process::exit(if r.mismatches.is_empty() { 0 } else { 1 });
+        let hs = v["histories"].as_array().unwrap();
+        let ss = v["schedules"].as_array().unwrap();
+        let mut all_mm: Vec<Value> = Vec::new();
+        let mut lh = 0u64;
+        for (h, sch) in hs.iter().zip(ss.iter()) {
+            let hist = hist_from_json(h);
+            let dec: Vec<u32> = sch.as_array().unwrap().iter().map(|x| x.as_u64().unwrap() as u32).collect();
+            let r = run_history(&hist, inputs.clone(), refs.clone(), Strat::Uniform, 0, Some(dec));
+            lh = hash_all(&[lh, r.log_hash]);
+            all_mm.extend(r.mismatches);
+        }
+        let same_log = lh.to_string() == v["log_hash"].as_str().unwrap_or("");
+        println!("{}", json!({"type": "replay", "status": if !all_mm.is_empty() && same_log { "reproduced" } else if !all_mm.is_empty() { "reproduced_with_different_log" } else { "not_reproduced" }, "log_hash": lh.to_string(), "mismatches": all_mm}));
+        std::process::exit(if all_mm.is_empty() { 0 } else { 1 });
     }
+    let groups = load_groups(arg(args, "--inputs").unwrap());
     let seed: u64 = arg(args, "--seed").and_then(|s| s.parse().ok()).unwrap_or(1);
     let n: u64 = arg(args, "--histories").and_then(|s| s.parse().ok()).unwrap_or(200);
     let shard: u64 = arg(args, "--shard").and_then(|s| s.parse().ok()).unwrap_or(0);
@@ -200,14 +229,20 @@ fn sim(args: &[String]) {
     let mut samples: Vec<Value> = Vec::new();
     let mut digest = 0u64;
     let mut by_clients = [0u64; 5];
+    let mut all_hist: Vec<Value> = Vec::new();
+    let mut all_sched: Vec<Value> = Vec::new();
+    let mut chain_hash = 0u64;
     for i in 0..n {
         let hs = hash_all(&[seed, shard, i]);
         let mut rng = Rng::new(hs);
-        let hist = gen_history(&mut rng, &inputs);
+        let hist = gen_history(&mut rng, &inputs, &groups);
         let strat = Strat::from_seed(hs ^ 0x77, false);
         let r = run_history(&hist, inputs.clone(), refs.clone(), strat, hs, None);
         expansions += r.expansions;
         decisions += r.decisions.len() as u64;
+        all_hist.push(hist_to_json(&hist));
+        all_sched.push(json!(r.decisions));
+        chain_hash = hash_all(&[chain_hash, r.log_hash]);
         by_clients[hist.len()] += 1;
         let sig = hash_all(&[hash_str(&hist_to_json(&hist).to_string()), r.log_hash]);
         sigs.insert(sig);
@@ -219,45 +254,13 @@ fn sim(args: &[String]) {
             samples.push(json!({"history": hist_to_json(&hist), "strategy": strat.name(), "decisions": r.decisions.len(), "expansions": r.expansions}));
         }
         if !r.mismatches.is_empty() {
-            // minimise: drop clients, then operations, while a mismatch persists (schedule replayed with default fallback)
-            let mut best = hist.clone();
-            let mut dec = r.decisions.clone();
-            let mut mm = r.mismatches.clone();
-            let mut lh = r.log_hash;
-            let mut changed = true;
-            while changed {
-                changed = false;
-                for ci in 0..best.len() {
-                    for oi in 0..best[ci].len() {
-                        let mut cand = best.clone();
-                        cand[ci].remove(oi);
-                        if cand[ci].is_empty() {
-                            cand.remove(ci);
-                        }
-                        if cand.is_empty() {
-                            continue;
-                        }
-                        let rr = run_history(&cand, inputs.clone(), refs.clone(), strat, hs, Some(dec.clone()));
-                        if !rr.mismatches.is_empty() {
-                            best = cand;
-                            dec = rr.decisions.clone();
-                            mm = rr.mismatches.clone();
-                            lh = rr.log_hash;
-                            changed = true;
-                            break;
-                        }
-                    }
-                    if changed {
-                        break;
-                    }
-                }
-            }
+            // reported unminimised: the driver minimises over fresh processes (state may have leaked from earlier histories)
+            let mm = r.mismatches.clone();
             println!(
                 "{}",
-                json!({"type": "violation", "format": 1, "check": "C20", "property": "C20", "violation": "C20.output_differs",
+                json!({"type": "violation", "format": 2, "check": "C20", "property": "C20", "violation": "C20.output_differs",
                        "message": format!("an expansion inside a history differs from the expansion of the same input in a fresh process: {}", mm[0]),
-                       "master_seed": seed, "history": hist_to_json(&best), "schedule": dec, "log_hash": lh.to_string(), "mismatches": mm,
-                       "inputs": best.iter().flatten().map(|o| json!({"index": o.input, "text": inputs[o.input].0})).collect::<Vec<_>>()})
+                       "master_seed": seed, "shard": shard, "histories": all_hist, "schedules": all_sched, "log_hash": chain_hash.to_string(), "mismatches": mm})
             );
             break;
         }
